@@ -1,2 +1,11 @@
 import Tbx.Props.C09
 #print axioms Tbx.Props.C09.judge_validPath_iff
+#print axioms Tbx.Props.C09.validPath_is_walk
+#print axioms Tbx.Props.C09.unreached_none
+#print axioms Tbx.Props.C09.unreached_none_of_unreachable
+#print axioms Tbx.Props.C09.final_state_ready
+#print axioms Tbx.Props.C09.parent_inv
+#print axioms Tbx.Props.C09.path_valid
+#print axioms Tbx.Props.C09.path_valid_uni
+#print axioms Tbx.Props.C09.path_valid_o2m
+#print axioms Tbx.Dijkstra.heapLaws
